@@ -8,6 +8,7 @@ pub mod c07;
 pub mod c09;
 pub mod c10;
 pub mod c17;
+pub mod c18;
 
 pub fn dispatch(env: &Env) -> i32 {
     match env.prop.as_str() {
@@ -19,6 +20,7 @@ pub fn dispatch(env: &Env) -> i32 {
         "C09" => c09::run(env),
         "C10" => c10::run(env),
         "C17" => c17::run(env),
+        "C18" => c18::run(env),
         other => {
             eprintln!("no check for property {other}");
             2
